@@ -39,6 +39,8 @@ def demo_result(repo, demo, race=False):
 def do_import(pid, n, sub="out", offset=0):
     src = f"/tmp/wt/{pid}/{sub}"
     patch, demo, notes = f"{src}/patch{n}.diff", f"{src}/demo{n}_test.go", f"{src}/notes{n}.md"
+    if not os.path.exists(demo) and os.path.exists(demo + ".txt"):
+        demo = demo + ".txt"
     name = f"{pid}-{n+offset}"
     ran = []
     d, repo = scratch(patch)
@@ -122,6 +124,8 @@ def main():
         do_import(a[1], int(a[2]), "out2", 2); return
     if a[0] == "import4":  # round 4: /tmp/wt/<ID>/out4/patchN -> seeded/<ID>-(N+6)
         do_import(a[1], int(a[2]), "out4", 6); return
+    if a[0] == "import10":  # round 10: /tmp/wt/<ID>/out10/patchN -> seeded/<ID>-(N+18)
+        do_import(a[1], int(a[2]), "out10", 18); return
     if a[0] == "import9":  # round 9: /tmp/wt/<ID>/out9/patchN -> seeded/<ID>-(N+16)
         do_import(a[1], int(a[2]), "out9", 16); return
     if a[0] == "import8":  # round 8: /tmp/wt/<ID>/out8/patchN -> seeded/<ID>-(N+14)
